@@ -10,18 +10,19 @@ namespace Dtr
 
 /-- the recorded `C` columns only grow; every virtual signal in `b` was in `a` or is well-formed -/
 def PState.le (a b : PState) : Prop :=
-  (∀ n, n ∈ a.expIn.map (·.1) → n ∈ b.expIn.map (·.1)) ∧ (∀ v ∈ b.virt, v ∈ a.virt ∨ v.2.2.WF)
+  (∀ n, n ∈ a.expIn.map (·.1) → n ∈ b.expIn.map (·.1)) ∧ (∀ v ∈ b.virt, v ∈ a.virt ∨ v.2.2.WF) ∧
+  ((a.virt.map (·.1)).Nodup → (b.virt.map (·.1)).Nodup)
 
-theorem PState.le_refl (a : PState) : a.le a := ⟨fun _ h => h, fun v h => Or.inl h⟩
+theorem PState.le_refl (a : PState) : a.le a := ⟨fun _ h => h, fun v h => Or.inl h, fun h => h⟩
 
 theorem PState.le_trans {a b c : PState} (h1 : a.le b) (h2 : b.le c) : a.le c :=
   ⟨fun n h => h2.1 n (h1.1 n h), fun v h => by
-    rcases h2.2 v h with h | h
-    · exact h1.2 v h
-    · exact Or.inr h⟩
+    rcases h2.2.1 v h with h | h
+    · exact h1.2.1 v h
+    · exact Or.inr h, fun h => h2.2.2 (h1.2.2 h)⟩
 
 theorem PState.le_of_eq {a b : PState} (h1 : b.expIn = a.expIn) (h2 : b.virt = a.virt) : a.le b :=
-  ⟨fun n h => by rw [h1]; exact h, fun v h => by rw [h2] at h; exact Or.inl h⟩
+  ⟨fun n h => by rw [h1]; exact h, fun v h => by rw [h2] at h; exact Or.inl h, fun h => by rw [h2]; exact h⟩
 
 /-- partial-correctness triple that also says the state only grew -/
 def MT {α : Type} (P : PState → Prop) (m : PM α) (Q : α → PState → Prop) : Prop :=
@@ -396,7 +397,7 @@ theorem mt_recordC (P : PState → Prop) (hP : Mono P) (name : String) (i : Nat)
     exact ⟨PState.le_refl _, hp, hany⟩
   · simp only [PRes.ok.injEq] at he; obtain ⟨_, rfl⟩ := he
     have l : st.le { st with expIn := st.expIn ++ [(name, i)] } :=
-      ⟨fun n hn => by simp only [List.map_append, List.mem_append]; exact Or.inl hn, fun v hv => Or.inl hv⟩
+      ⟨fun n hn => by simp only [List.map_append, List.mem_append]; exact Or.inl hn, fun v hv => Or.inl hv, fun h => h⟩
     exact ⟨l, hP _ _ hp l, by simp⟩
 
 theorem rowLoop_wf (hdr : List String) (P : PState → Prop) (hP : Mono P) : ∀ (f : Nat) (data : List DataEntry) (idx : Nat),
@@ -532,14 +533,28 @@ theorem mt_declareVirt (P : PState → Prop) (hP : Mono P) (name : String) (a b 
   simp only [declareVirt] at h
   split at h
   · cases h
-  · simp only [PRes.ok.injEq] at h
+  · next hfind =>
+    simp only [PRes.ok.injEq] at h
     obtain ⟨rfl, rfl⟩ := h
+    have hnew : name ∉ st.virt.map (·.1) := by
+      intro hm
+      simp only [List.mem_map] at hm
+      obtain ⟨v, hv, hvn⟩ := hm
+      have := List.find?_eq_none.1 hfind v hv
+      simp [hvn] at this
     have l : st.le { st with virt := st.virt ++ [(name, (a, b), e)] } :=
       ⟨fun n hn => hn, fun v hv => by
         simp only [List.mem_append, List.mem_cons, List.mem_nil_iff, or_false] at hv
         rcases hv with hv | rfl
         · exact Or.inl hv
-        · exact Or.inr he⟩
+        · exact Or.inr he, fun hnd => by
+        simp only [List.map_append, List.map_cons, List.map_nil]
+        rw [List.nodup_append]
+        refine ⟨hnd, by simp, ?_⟩
+        intro x hx y hy
+        simp only [List.mem_cons, List.mem_nil_iff, or_false] at hy
+        subst hy
+        intro e'; subst e'; exact hnew hx⟩
     exact ⟨l, hP _ _ hp l, rfl⟩
 
 /-- the statements parsed so far are well-formed relative to the columns recorded so far -/
